@@ -130,7 +130,71 @@ func allJobs(f lib.Flags) []job {
 	jobs = append(jobs, batchJobs(f)...)
 	jobs = append(jobs, minAgeJobs(f)...)
 	jobs = append(jobs, randomJobs(f)...)
+	if f.Thorough() {
+		jobs = append(jobs, bloomJobs(f)...)
+	}
 	return jobs
+}
+
+// --- the 8192-block event-index window (thorough tier) -------------------------------------------------
+
+func bloomJobs(f lib.Flags) []job {
+	var jobs []job
+	for _, ns := range []bool{false, true} {
+		ns := ns
+		name := jobName("bloom-window/new=%v", ns)
+		jobs = append(jobs, job{name: name, run: func(e *env) { bloomWindow(e, name, ns) }})
+	}
+	return jobs
+}
+
+// 8200 blocks: a prune that stops inside the first aggregated-bloom window must keep that window's
+// filter; a prune that crosses the boundary deletes exactly the windows below it; event queries from the
+// floor keep answering like the twin, also after a restart (running filter rebuilt from the floor).
+func bloomWindow(e *env, name string, newState bool) {
+	opt := lib.DefaultGenOptions()
+	opt.MaxTxs, opt.MaxEvents, opt.NoClasses, opt.EmptyDiffs = 1, 2, true, 60
+	baseMu.Lock()
+	key := fmt.Sprintf("bloom/%v", newState)
+	b, ok := bases[key]
+	if !ok {
+		ch := newChain(lib.NewRNG(77), newState, opt)
+		node, d := lib.NewNode(ch.g.Net, newState)
+		b = &baseImage{ch: ch, db: d, height: 8199}
+		for i := 0; i < 8204; i++ {
+			bd, err := ch.next(true)
+			if err != nil {
+				baseMu.Unlock()
+				e.res.Note("%s: generator: %v", name, err)
+				return
+			}
+			if i < 8200 {
+				if err := lib.StoreOn(node, bd); err != nil {
+					baseMu.Unlock()
+					e.res.Note("%s: store %d: %v", name, i, err)
+					return
+				}
+				b.lines = append(b.lines, "store")
+			}
+		}
+		bases[key] = b
+	}
+	baseMu.Unlock()
+	for _, l1 := range []uint64{8190, 8194, 8198} {
+		w := cloneWorld(e, b, prunerCfg{Retained: 2, L2PerPrune: 1, BatchBytes: hugeBatch}, 0, name, map[string]any{"l1": l1})
+		w.writeL1(l1)
+		w.event("l1", l1, 0, noPlan())
+		w.observe()
+		w.restart("orderly")
+		w.situation = "steady"
+		w.observe()
+		if w.store() && w.store() {
+			w.writeL1(l1 + 2)
+			w.event("l1", l1+2, 0, noPlan())
+			w.observe()
+		}
+		w.close()
+	}
 }
 
 // --- floor arithmetic: every (retained, L1 head, event) over a 14-block chain --------------------
